@@ -443,9 +443,12 @@ func tierOf(h *Harness, tier string) TierBounds {
 		b.Alloc = 16
 	}
 	if b.TimeoutS == 0 {
-		b.TimeoutS = 20
+		// generous on purpose: the slowest verdict query of a default-time-out
+		// harness takes 3 s on the unchanged tree; a loaded machine must not
+		// turn a pass into INCONCLUSIVE
+		b.TimeoutS = 60
 		if tier == "thorough" {
-			b.TimeoutS = 120
+			b.TimeoutS = 180
 		}
 	}
 	return b
